@@ -461,6 +461,12 @@ def Semi.WF (v : Semi) : Prop :=
 
 instance (v : Semi) : Decidable v.WF := by unfold Semi.WF; infer_instance
 
+/-- fungible deposit data (no optional message) followed by arbitrary trailing bytes, at least the handler's 84 bytes in all -/
+def TailWF (d0 : Fungible) (t : Bytes) : Prop :=
+  d0.amount < 2 ^ 256 ∧ d0.recipient.length < 2 ^ 63 ∧ d0.opt = none ∧ 84 ≤ 64 + d0.recipient.length + t.length
+
+instance (d0 : Fungible) (t : Bytes) : Decidable (TailWF d0 t) := by unfold TailWF; infer_instance
+
 /-- fungible deposit data followed by 1..32 stray bytes -/
 def ShortTailWF (d0 : Fungible) (t : Bytes) : Prop :=
   d0.amount < 2 ^ 256 ∧ d0.recipient.length < 2 ^ 63 ∧ d0.opt = none ∧ 1 ≤ t.length ∧ t.length ≤ 32 ∧
@@ -514,12 +520,16 @@ def expected (i : Input) : Option Out :=
         | .btc => if a / 10 ^ 10 < 2 ^ 64 then some (.ok ⟨i.id, .btc (a / 10 ^ 10) d0.recipient, none⟩) else some .errDst
       else none
   | .sub =>
-    let d := parseFungible i.cd
-    if Src.fungible d = i.cd ∧ d.WF ∧ d.opt = none ∧ i.num = 0 then
+    -- the recipient is exactly the bytes the length word delimits; whatever follows it (padding to a word, stray bytes) is
+    -- not part of the deposit and is dropped
+    let n := beToNat ((i.cd.drop 32).take 32)
+    let d0 : Fungible := ⟨beToNat (i.cd.take 32), (i.cd.drop 64).take n, none⟩
+    let t := i.cd.drop (64 + n)
+    if Src.fungible d0 ++ t = i.cd ∧ TailWF d0 t ∧ i.num = 0 then
       match i.dk with
-      | .evm => some (.ok ⟨i.id, .evm (Canon.evmFungible d.amount d.recipient none), none⟩)
-      | .sub => some (.ok ⟨i.id, .evm (Canon.subFungible d.amount d.recipient), none⟩)
-      | .btc => if d.amount / 10 ^ 10 < 2 ^ 64 then some (.ok ⟨i.id, .btc (d.amount / 10 ^ 10) d.recipient, none⟩) else some .errDst
+      | .evm => some (.ok ⟨i.id, .evm (Canon.evmFungible d0.amount d0.recipient none), none⟩)
+      | .sub => some (.ok ⟨i.id, .evm (Canon.subFungible d0.amount d0.recipient), none⟩)
+      | .btc => if d0.amount / 10 ^ 10 < 2 ^ 64 then some (.ok ⟨i.id, .btc (d0.amount / 10 ^ 10) d0.recipient, none⟩) else some .errDst
     else none
   | .erc721 =>
     let n := beToNat ((i.cd.drop 32).take 32)
@@ -527,7 +537,8 @@ def expected (i : Input) : Option Out :=
     let token := beToNat (i.cd.take 32)
     let r := (i.cd.drop 64).take n
     let md := (i.cd.drop (96 + n)).take m
-    if Src.nft token r md = i.cd ∧ NftWF token r md then
+    -- bytes after the metadata are not part of the deposit and are dropped
+    if Src.nft token r md ++ i.cd.drop (96 + n + m) = i.cd ∧ NftWF token r md then
       -- only an EVM destination takes non-fungible transfers; the others refuse the message type
       if i.dk = .evm then some (.ok ⟨i.id, .evm (Canon.nft token r md), none⟩) else some .errDst
     else none
